@@ -398,7 +398,9 @@ func (r *run) onClose(res string) app.EventCallback {
 var errProbe = errors.New("probe failed")
 
 // probe builds the callback of one probe command.  kind: p plain, g gated, f failing,
-// s = pip:run bracketed by events, y = pip:try bracketed by events.
+// s = pip:run bracketed by events, y = pip:try bracketed by events, t = stops the scope it runs
+// in (Scope.Stop: done without an error), m = marker in front of an unknown / truncated command:
+// it records `cmd` and `ret … err` for the position at which RunLoop is about to fail and returns nil.
 func (r *run) probe(kind byte) func(a app.App, ctx app.IOContext) error {
 	return func(a app.App, ctx app.IOContext) (err error) {
 		var deps struct {
@@ -421,6 +423,13 @@ func (r *run) probe(kind byte) func(a app.App, ctx app.IOContext) error {
 			r.gates.pass(t, i)
 		case 'f':
 			err = errProbe
+		case 't':
+			if p, _ := hx.Guard(func() { ctx.Scope().Stop() }); p {
+				r.rec.emit("panic")
+			}
+		case 'm':
+			r.rec.emit("ret %d %d err", t, i)
+			return nil
 		case 's', 'y':
 			if p, _ := hx.Guard(func() {
 				if kind == 's' {
@@ -481,7 +490,8 @@ func (r *run) execute() {
 	for _, reg := range []struct {
 		name string
 		kind byte
-	}{{"probe:begin", 'p'}, {"probe:end", 'p'}, {"probe:gate", 'g'}, {"probe:fail", 'f'}, {"probe:run", 's'}, {"probe:try", 'y'}} {
+	}{{"probe:begin", 'p'}, {"probe:end", 'p'}, {"probe:gate", 'g'}, {"probe:fail", 'f'}, {"probe:run", 's'}, {"probe:try", 'y'},
+		{"probe:stop", 't'}, {"probe:mark", 'm'}} {
 		mapp.Terminal().SetCommand(terminal.NewCommand(terminal.CommandParams{Name: reg.name, Callback: r.probe(reg.kind)}))
 	}
 	var deps struct {
